@@ -447,8 +447,17 @@ func (e *c07Env) do(op string) string {
 func c07Run(t *testing.T, dir string, node string, peers []string, ops []string) string {
 	t0 := time.Now()
 	c, err := verifNewCore(dir, "dtn://"+node+"/", RoutingConf{Algorithm: "epidemic"})
+	for try := 1; err != nil && try <= 3; try++ {
+		// a loaded machine can make the store's start-up fail; a fresh directory is as good
+		fmt.Fprintf(os.Stderr, "verif: NewCore(%s): %v (retrying)\n", dir, err)
+		time.Sleep(100 * time.Millisecond)
+		dir = fmt.Sprintf("%s-retry%d", dir, try)
+		defer os.RemoveAll(dir)
+		c, err = verifNewCore(dir, "dtn://"+node+"/", RoutingConf{Algorithm: "epidemic"})
+	}
 	if err != nil {
-		t.Fatalf("core: %v", err)
+		t.Errorf("core: %v", err)
+		return "# harness-failure NewCore: " + err.Error()
 	}
 	e := &c07Env{t: t, c: c, net: &verifNet{}, node: node, agents: map[int]*c07Agent{},
 		bundles: map[int]bpv7.Bundle{}, byCbor: map[string]int{}, byJson: map[string]int{}, byId: map[string]int{}}
